@@ -88,13 +88,14 @@ BOUNDS = {
               'balanced': 'K,M in {2,3}, R in {1,2}; 4 row orders; masks: none, every cell, whole channel, '
                           'whole observation (+ every pair of cells for <=6 rows)',
               'fills': 'generic float fill + integer fill (complete data)',
-              'layout/dtype variants': 'F order on every third case (rotating through configurations and masks), int64 C/F + F on every integer-fill case'},
+              'layout/dtype variants': 'F order on every third case (rotating through configurations and '
+                                       'masks), int64 C/F + F on every integer-fill case'},
     'thorough': {'n_obs': '1..6, every set partition (278); n=6: masks of <=2 cells (P=2) / <=1 cell (P=3) + whole',
                  'n_channel': '2, 3 (+4 for n<=4)',
                  'fold_partitions': 'n<=4 with all masks, n=5 with <=1 cell + whole',
                  'balanced': 'K,M in {2,3,4} (R=1), {2,3} (R=2); pairs of cells for <=9 rows',
                  'fills': '3 float fills + integer fill; second poisson prior',
-                 'layout/dtype variants': 'F order on every case'},
+                 'layout/dtype variants': 'F order on every case of the labeling and balanced blocks'},
 }
 DEADLINE = {'quick': 600, 'thorough': 5400}
 
@@ -498,6 +499,7 @@ def _vs_calc_rdm(ctx, case, X, labels, folds, prec, got, kind, defined):
     bal = _lib_full(ctx, sub, X.copy(), labels, folds, None if prec is None else prec.copy(),
                     cls, op='calc_rdm')
     ctx.case(sub)
+    ctx.count('calc_rdm_comparisons:%s' % kind)
     if bal is None:
         return
     blabs, bvec = bal
@@ -631,6 +633,7 @@ def _run_structured(case, ctx):
         pd = None if prec is None else np.ascontiguousarray(prec[np.ix_(keep, keep)])
         gd = _lib_full(ctx, sub, Xd, labels, folds, pd, cls)
         ctx.case(sub, nontrivial=finite > 0)
+        ctx.count('channel_deleted_comparisons')
         if gd is not None and not _same_result(got, gd, TOL, _defined(want)):
             ctx.fail('calc_rdm_unbalanced|channel-missing-everywhere|differs-from-channel-deleted', sub,
                      'channel %d NaN in every observation gives %r, the data set without that channel gives %r' % (
@@ -639,14 +642,20 @@ def _run_structured(case, ctx):
 
 # ----------------------------------------------------------------------------- child process (known over-read)
 def _probe_cases(tier):
+    """a handful of cases of the class precision + missing channel; every condition keeps a valid
+    self-product (>= 2 observations in different folds under cross-validation), so each deviation is
+    the kernel's and carries the signature of this class"""
     out = []
-    for part in ([0, 1, 0, 2, 1], [0, 1, 2], [0, 0, 1, 1]):
-        n = len(part)
-        for mask in ([1], [n * 3 - 1], [0, 4], [o * 3 + 1 for o in range(n)]):
-            for method, fold in (('mahalanobis', None), ('crossnobis', 'occ'), ('crossnobis', None)):
-                out.append({'kind': 'lab', 'probe': True, 'P': 3, 'fill': 0, 'mask': mask, 'method': method,
-                            'weighting': 'number', 'prec': 'spd', 'variants': [],
-                            'design': {'type': 'lab', 'part': part, 'naming': 'desc', 'fold': fold}})
+    for method, fold, parts in (('mahalanobis', None, ([0, 1, 0, 2, 1], [0, 1, 2], [0, 0, 1, 1])),
+                                ('crossnobis', 'occ', ([0, 1, 0, 1, 1], [0, 0, 1, 1])),
+                                ('crossnobis', None, ([0, 1, 0, 1, 1], [0, 0, 1, 1]))):
+        for part in parts:
+            n = len(part)
+            for mask in ([1], [n * 3 - 1], [0, 4], [o * 3 + 1 for o in range(n)]):
+                for weighting in W2 if method == 'crossnobis' else ('number',):
+                    out.append({'kind': 'lab', 'probe': True, 'P': 3, 'fill': 0, 'mask': mask, 'method': method,
+                                'weighting': weighting, 'prec': 'spd', 'variants': [],
+                                'design': {'type': 'lab', 'part': part, 'naming': 'desc', 'fold': fold}})
     return out
 
 
